@@ -184,9 +184,9 @@ type Span struct{ From, To Dur }
 // ---------- the world as the contract describes it ----------
 
 type subm struct {
-	T     Dur // accepted at
-	Start Dur
-	End   Dur // end time in force after this submission
+	T        Dur // accepted at
+	Start    Dur
+	End      Dur // end time in force after this submission
 	Explicit bool
 }
 
@@ -205,24 +205,24 @@ type silVer struct {
 
 // Model is the reference view of one instance's run.
 type Model struct {
-	P       *Plan
-	H       *History
-	Inst    int
-	Name    string
-	Cfg     *Config
-	Root    *MRoute
-	Subs    map[string][]subm            // label key -> accepted submissions in order
-	Labels  map[string]map[string]string // label key -> labels
-	Sils    map[string]*mSilence         // id -> silence
+	P      *Plan
+	H      *History
+	Inst   int
+	Name   string
+	Cfg    *Config
+	Root   *MRoute
+	Subs   map[string][]subm            // label key -> accepted submissions in order
+	Labels map[string]map[string]string // label key -> labels
+	Sils   map[string]*mSilence         // id -> silence
 	// Disturb are instants at which the instance was reloaded, (re)started or crashed.
 	Disturb []Dur
 	// Starts are the instants at which an incarnation of the process started:
 	// alerts are not persisted, so submissions before the latest start are gone.
-	Starts []Dur
-	Breaks  []Dur // every instant at which some predicate may change
+	Starts         []Dur
+	Breaks         []Dur // every instant at which some predicate may change
 	ResolveTimeout Dur
-	cal map[string]*TimeInterval
-	keyRoutes map[string]map[*MRoute]bool
+	cal            map[string]*TimeInterval
+	keyRoutes      map[string]map[*MRoute]bool
 }
 
 // KeyRoutes maps every (receiver, group key) seen in this instance's
